@@ -184,7 +184,8 @@ def run_check(P, tier, seed, replay=None):
             continue
         wc = [Case.from_json(j) for j in e.get("witness_cases", [])]
         if wc:
-            wi, _ = evaluate(P, wc, harness, None, want_model=False)
+            wbin = extra_bins.get(e.get("witness_build"), harness) if e.get("witness_build") else harness
+            wi, _ = evaluate(P, wc, wbin, None, want_model=False)
             still = any((is_crash(l) or P.oracle(c, l)) for c, l in zip(wc, wi))
         else:
             still = True
